@@ -356,15 +356,39 @@ theorem ifexpr_boxed_cond_fails (c tr te : Expr) (σ : State N) (d : Nat)
   | err x σ1 => simp [evalE, h, Res.bind]
   | timeout => simp [evalE, h, Res.bind]
 
-/-- the general statement (branches that may allocate): equal observable outcome of whole programs;
-to be proved with the allocation-insensitive relation (in progress elsewhere) — NOT proved here,
-covered by the execution oracle. -/
-def ifexpr_boxed_general : Prop :=
+/-- the string values a run returned -/
+def outStrs : Outcome → List (List UInt8)
+  | .returned vals _ => vals.map fun v => match v with | .str s => s | _ => []
+  | _ => [[0]]
+
+/-- the full statement for the table-boxed encoding (every result boxed), over EVERY number system -/
+def ifexpr_boxed_full : Prop :=
   ∀ (truthy : Expr → Bool) (b : Block) (N : NumOps) (ρ : ExtOracle N) (n : Nat) (externs : List String),
     (∀ r, truthy r = false) →
     runProgram ρ n externs (RemoveIfExpression.apply truthy b) = runProgram ρ n externs b ∨
       runProgram ρ n externs b = .timeout
 
+/-- a number system in which the literal `1` is not the index `1` of a table constructor -/
+def oddOps : NumOps := { Rules.Witness.unitOps with eq := fun _ _ => false }
+
+/-- **it is FALSE over every number system**: `(c and {r} or {e})[1]` reads the box with the LITERAL `1`
+(`N.ofBits 0x3FF0…`) while the table constructor stored the value at `N.ofNat 1`; raw equality of keys goes
+through `N.eq`. In a number system where the two are not equal (`oddOps`; IEEE doubles are fine) the box
+reads back `nil`: `return if true then "a" else "b"` returns `"a"`, the lowered program returns `nil`.
+The right statement is relative to number systems with `N.eq (N.ofNat 1) (N.ofBits 0x3FF0000000000000)`
+(`ifexpr_boxed_atoms` has that hypothesis); the whole-rule version needs the lifting layer to be
+parametric in a class of number systems, and a pinned right table (meta/C06.json, proof_gaps). -/
+theorem ifexpr_boxed_full_false : ¬ ifexpr_boxed_full := by
+  intro hfull
+  let w : Block := .mk [] (some (.ret [.ifx .true (.str [97]) [] (.str [98])]))
+  have h1 : outStrs (runProgram (N := oddOps) (fun _ _ _ => []) 3 [] w) = [[97]] := by decide +kernel
+  have h2 : outStrs (runProgram (N := oddOps) (fun _ _ _ => []) 3 []
+      (RemoveIfExpression.apply (fun _ => false) w)) = [[]] := by decide +kernel
+  have h3 : runProgram (N := oddOps) (fun _ _ _ => []) 3 [] w ≠ .timeout := by
+    intro h; rw [h] at h1; revert h1; decide
+  rcases hfull (fun _ => false) w oddOps (fun _ _ _ => []) 3 [] (fun _ => rfl) with h | h
+  · rw [h, h1] at h2; revert h2; decide
+  · exact h3 h
 
 /-! ## `remove_floor_division` -/
 
@@ -704,11 +728,6 @@ def f30Witness : Block :=
          (.mk [.assign [.var "T"] [.var "U"]] (some (.ret [.str [120]])))),
        .cassign .concat (.index (.var "T") (.call (.var "key") none .tuple [])) (.str [98])]
     (some (.ret [.field (.var "T") "x", .field (.var "U") "x"]))
-
-/-- the string values a run returned -/
-def outStrs : Outcome → List (List UInt8)
-  | .returned vals _ => vals.map fun v => match v with | .str s => s | _ => []
-  | _ => [[0]]
 
 open Rules.Witness in
 /-- **F30**: an identifier prefix gets no temporary while the key does, so the key is evaluated before
